@@ -34,11 +34,15 @@ const c02Setup = `(do
   (def p5 (hash-set "a" "b"))
   (def p6 (list 1 2 3))
   (def p7 (vec '(7 8 9)))
+  (def p8 [])
+  (def p9 ())
+  (def p10 [[1 2] [3 4] [5 6]])
+  (def p11 {:a [1 {:b [2 3]}] :m {:v [7 8]}})
   (defmacro m-conj (fn [xs y] (list 'conj xs y)))
   (defmacro m-splice (fn [xs ys] (list 'concat xs ys)))
   nil)`
 
-var c02SeedTypes = []string{"vec", "vec", "list", "vec", "map", "set", "list", "vec"}
+var c02SeedTypes = []string{"vec", "vec", "list", "vec", "map", "set", "list", "vec", "vec", "list", "vec2", "map2"}
 
 type strTable struct{ K, V []string }
 
@@ -81,6 +85,15 @@ type c02Op struct {
 	Src  string
 	ast  types.MalType
 	val  *c02Val
+}
+
+// snap! records the canonical print of its argument; within one operation each snapshot must start
+// with the previous one (what was already stored in the growing vector must not change).
+//
+//go:norace
+func (w *c02World) Snap(ctx context.Context, a []types.MalType) (types.MalType, error) {
+	w.s.Rec("snap", canonQuiet(a, 0), "", 0)
+	return nil, nil
 }
 
 type c02World struct {
@@ -209,8 +222,12 @@ func (g *c02Gen) next(prefix string) *c02Op {
 	k := strconv.Itoa(1000 + g.tok)
 	kinds := []string{"conj-vec", "conj-vec2", "conj-list", "concat", "concat3", "subvec", "subvec-tail", "cons", "assoc-vec", "assoc-map", "conj-map", "conj-set",
 		"dissoc", "rest", "vec", "seq", "take", "drop", "take-last", "drop-last", "merge", "rename-keys", "with-meta", "assoc-in", "update", "update-in",
-		"apply-conj", "apply-concat", "map", "qq-splice", "qq-splice2", "qq-vec", "closure-conj", "macro-conj", "macro-splice"}
-	weights := []int{8, 3, 2, 6, 2, 5, 2, 2, 2, 2, 1, 1, 1, 3, 3, 2, 1, 1, 1, 1, 1, 1, 2, 1, 1, 2, 3, 2, 1, 4, 3, 2, 2, 2, 2}
+		"apply-conj", "apply-concat", "map", "qq-splice", "qq-splice2", "qq-vec", "closure-conj", "macro-conj", "macro-splice",
+		"concat-empty-head", "concat-empty-head2", "apply-concat-empty-head", "update-in-vec", "assoc-in-vec", "update-in-mixed", "assoc-in-mixed", "update-vec",
+		"map-rest-retain", "apply-rest-retain", "reduce-rest-retain"}
+	weights := []int{8, 3, 2, 6, 2, 5, 2, 2, 2, 2, 1, 1, 1, 3, 3, 2, 1, 1, 1, 1, 1, 1, 2, 1, 1, 2, 3, 2, 1, 4, 3, 2, 2, 2, 2,
+		3, 2, 2, 3, 2, 2, 2, 2,
+		2, 1, 1}
 	kind := kinds[g.tp.Weighted(LaneWork, weights)]
 	var src, typ string
 	var parents []*c02Val
@@ -293,6 +310,39 @@ func (g *c02Gen) next(prefix string) *c02Op {
 		src, typ = "(m-conj "+vec().Name+" "+k+")", "vec"
 	case "macro-splice":
 		src, typ = "(m-splice "+seq().Name+" (list "+k+"))", "list"
+	case "concat-empty-head":
+		src, typ = "(concat [] "+seq().Name+" (list "+k+"))", "list"
+	case "concat-empty-head2":
+		src, typ = "(concat () [] "+seq().Name+" "+seq().Name+")", "list"
+	case "apply-concat-empty-head":
+		src, typ = "(apply concat (list p8 "+seq().Name+" (list "+k+")))", "list"
+	case "update-in-vec":
+		v := g.pick("vec2")
+		parents = append(parents, v)
+		src, typ = "(update-in "+v.Name+" [0 1] (fn [x] "+k+"))", "vec2"
+	case "assoc-in-vec":
+		v := g.pick("vec2")
+		parents = append(parents, v)
+		src, typ = "(assoc-in "+v.Name+" [1 0] "+k+")", "vec2"
+	case "update-in-mixed":
+		v := g.pick("map2")
+		parents = append(parents, v)
+		src, typ = "(update-in "+v.Name+" [:a 1 :b 0] (fn [x] "+k+"))", "map2"
+	case "assoc-in-mixed":
+		v := g.pick("map2")
+		parents = append(parents, v)
+		src, typ = "(assoc-in "+v.Name+" [:m :v 1] "+k+")", "map2"
+	case "update-vec":
+		v := g.pick("vec2")
+		parents = append(parents, v)
+		src, typ = "(update "+v.Name+" 2 (fn [x] (conj x "+k+")))", "vec2"
+	case "map-rest-retain":
+		// the rest list of a variadic callback is kept while map goes on: what was stored must not change
+		src, typ = "(let [acc (atom [])] (map (fn [& xs] (do (swap! acc conj xs) (snap! @acc) xs)) "+seq().Name+"))", "list"
+	case "apply-rest-retain":
+		src, typ = "(let [acc (atom [])] (do (apply (fn [& xs] (do (swap! acc conj xs) (snap! @acc))) "+seq().Name+") (apply (fn [& xs] (do (swap! acc conj xs) (snap! @acc))) "+seq().Name+") @acc))", "vec"
+	case "reduce-rest-retain":
+		src, typ = "(let [acc (atom [])] (reduce (fn [& xs] (do (swap! acc conj xs) (snap! @acc) (first xs))) 0 "+seq().Name+"))", "other"
 	}
 	g.nDef++
 	name := prefix + strconv.Itoa(g.nDef)
@@ -327,6 +377,7 @@ func (c02) Run(tp *Tape, opt RunOpt) *RunOut {
 		panic("c02 setup: " + err.Error())
 	}
 	w := &c02World{s: s, env: e, vals: map[string]*c02Val{}}
+	e.Set(types.Symbol{Val: "snap!"}, types.Func{Fn: w.Snap})
 	g := &c02Gen{tp: tp}
 	for i, t := range c02SeedTypes {
 		name := "p" + strconv.Itoa(i)
@@ -376,6 +427,25 @@ func (c02) Run(tp *Tape, opt RunOpt) *RunOut {
 	} else {
 		w.inspect(nil)
 	}
+	// prefix stability of snap! sequences (per task, reset at every operation boundary)
+	prev := map[int]string{}
+	for _, ev := range s.Events {
+		switch ev.Kind {
+		case "inv":
+			delete(prev, ev.Task)
+		case "snap":
+			out.Stats["retained_value_comparisons"]++
+			if p, ok := prev[ev.Task]; ok {
+				// "[a b]" must start with "[a" : strip the closing bracket of the earlier print
+				if !strings.HasPrefix(ev.A, strings.TrimSuffix(p, "]")) {
+					out.Violations = append(out.Violations, Violation{"C02.mutated", "value-retained-inside-a-callback-changed",
+						"a value stored while a builtin was still calling back changed afterwards: the collection printed\n    " + p + "\n  and one callback later\n    " + ev.A})
+				}
+			}
+			prev[ev.Task] = ev.A
+		}
+	}
+	out.Violations = firstPerClause(out.Violations)
 	out.Stats["snapshot_comparisons"] += w.checks
 	if w.nMut > 0 {
 		orig, _ := w.origin.Get(w.mutName)
